@@ -2,7 +2,17 @@ package types
 
 import (
 	"fmt"
+	"reflect"
 )
+
+// IsNull tells whether a value is null for JSON: nil itself, or a nil pointer of any type
+func IsNull(value interface{}) bool {
+	if value == nil {
+		return true
+	}
+	rv := reflect.ValueOf(value)
+	return rv.Kind() == reflect.Ptr && rv.IsNil()
+}
 
 // JSONValue is an internal type used in storing various types, for converting any type to JSON supported type.
 type JSONValue interface{}
@@ -11,7 +21,7 @@ type JSONValue interface{}
 func ConvertValueList(values []interface{}) ([]interface{}, error) {
 	var jsonValues []interface{}
 	for _, val := range values {
-		if val == nil {
+		if IsNull(val) {
 			return nil, fmt.Errorf("null value cannot be inserted")
 		}
 		jsonValues = append(jsonValues, ConvertToJSONSupportedValue(val))
